@@ -69,6 +69,21 @@ def scenarios() -> dict:
                 decls=[pg.Fn("paint", [pg.Param("a", "Shape"), pg.Param("b", "ShapeGroup"), pg.Param("c", "BigShape"), pg.Param("d", "Other")], "Shape")])
     pkg.modules += [m1, m2, m3]
     out["affix-class-names"] = pkg
+    # one class re-exported by several packages that are no ancestors of its module: fewer path segments but more
+    # characters / more segments but fewer characters / equally deep siblings (where the class is declared and where
+    # it is imported from have to be decided alike)
+    pkg = pg.Pkg()
+    shapes = pg.Mod(("pk", "core", "impl"), "shapes", decls=[pg.Cls("Shape"), pg.Cls("Solid"), pg.Cls("Edge")])
+    pkg.modules += [shapes, pg.Mod(("pk", "core"), "core_mod", decls=[pg.Fn("core_fn")])]
+    for path in (("pk", "visualization"), ("pk", "io", "fmt"), ("pk", "io"), ("pk", "zz_a_long_package_name"), ("pk", "ab")):
+        pkg.modules.append(pg.Mod(path, "filler_" + path[-1], decls=[pg.Fn("filler_fn_" + path[-1])]))
+    pkg.inits[("pk", "visualization")] = [pg.Reexport("name", "pk.core.impl.shapes", "Shape", None, "abs")]
+    pkg.inits[("pk", "io", "fmt")] = [pg.Reexport("name", "pk.core.impl.shapes", "Shape", None, "abs"), pg.Reexport("name", "pk.core.impl.shapes", "Edge", None, "abs")]
+    pkg.inits[("pk", "zz_a_long_package_name")] = [pg.Reexport("name", "pk.core.impl.shapes", "Solid", None, "abs"), pg.Reexport("name", "pk.core.impl.shapes", "Edge", None, "abs")]
+    pkg.inits[("pk", "ab")] = [pg.Reexport("name", "pk.core.impl.shapes", "Solid", None, "abs")]
+    pkg.modules.append(pg.Mod(("pk", "app"), "main", imports=["from pk.core.impl.shapes import Shape, Solid, Edge"],
+                              decls=[pg.Fn("draw", [pg.Param("a", "Shape"), pg.Param("b", "Solid"), pg.Param("c", "Edge")], "Shape"), pg.Cls("Special", bases=["Solid"])]))
+    out["unrelated-reexporting-packages"] = pkg
     return out
 
 
